@@ -1,8 +1,10 @@
 package engine
 
 import (
+	"io"
 	"net/http"
 	"strings"
+	"sync"
 	"sync/atomic"
 	"time"
 
@@ -38,6 +40,11 @@ type baseServer struct {
 	clients      *types.Map[string, Socket]
 	clientsCount atomic.Uint64
 	middlewares  []Middleware
+
+	// the bytes of the configured initial packet, read once (see initialPacket)
+	initialPacketOnce sync.Once
+	initialPacketText bool
+	initialPacketData []byte
 }
 
 func MakeBaseServer() BaseServer {
@@ -74,6 +81,28 @@ func (bs *baseServer) ClientsCount() uint64 {
 
 func (bs *baseServer) Middlewares() []Middleware {
 	return bs.middlewares
+}
+
+// initialPacket returns a fresh reader over the configured initial packet, or nil.
+// The option holds a single io.Reader, which only the first session could consume;
+// its bytes are read once and every session gets its own reader of the same kind.
+func (bs *baseServer) initialPacket() io.Reader {
+	configured := bs.opts.InitialPacket()
+	if configured == nil {
+		return nil
+	}
+	bs.initialPacketOnce.Do(func() {
+		switch configured.(type) {
+		case *types.StringBuffer, *strings.Reader:
+			bs.initialPacketText = true
+		}
+		bs.initialPacketData, _ = io.ReadAll(configured)
+	})
+	data := append([]byte(nil), bs.initialPacketData...)
+	if bs.initialPacketText {
+		return types.NewStringBuffer(data)
+	}
+	return types.NewBytesBuffer(data)
 }
 
 // BaseServer build.
